@@ -209,9 +209,9 @@ func ordered(in []rec) {
 // ---- descriptors ----
 
 type keySpec struct {
-	name  string
-	add   func(b fpgo.SortDescriptorsBuilder[Row], asc bool) fpgo.SortDescriptorsBuilder[Row]
-	cmp   func(a, b Row) int // natural order of the key
+	name string
+	add  func(b fpgo.SortDescriptorsBuilder[Row], asc bool) fpgo.SortDescriptorsBuilder[Row]
+	cmp  func(a, b Row) int // natural order of the key
 }
 
 func keySpecs() []keySpec {
